@@ -165,6 +165,15 @@ def runBld : List String → Builder → List String → Option (List String)
         | some b' => runBld ops b' acc
         | none => none
       | none => some ["bad-op"]
+    | ["esn"] => match b.addEntries [] with
+      | some b' => runBld ops b' acc
+      | none => none
+    | ["wn"] => match b.addEntries [] with
+      | some b' => runBld ops b' acc
+      | none => none
+    | ["en"] => match b.addEntry [] with
+      | some b' => runBld ops b' acc
+      | none => none
     | ["key"] =>
       let o := match b.getKey with
         | .error e => berrStr e
